@@ -820,11 +820,17 @@ def sub_selftest(ctx):
     w = ctx["w"]
     # a dedicated run: one client, three rounds, one topic -- no join, no concurrent uninstall: always a clean trace
     known = (ctx["present"] & set(ALL[:4])) | {"D25"}
-    plan = dict(mode="stress", api=False, clients=1, rounds=3, topics=1, events=6, polls=0, seed=ctx["seed"], steps=[],
-                out=os.path.join(w.sub("selftest"), "base"))
-    o = classify(ctx["bin"], plan, known)
+    # (the base trace is only material for the corruptions below: on a loaded box a recording can be unusable - a receiver
+    # logging several events late - so it is recorded again, with another seed, before the self-test gives up)
+    for attempt in range(3):
+        plan = dict(mode="stress", api=False, clients=1, rounds=3, topics=1, events=6, polls=0, seed=ctx["seed"] + 1000 * attempt, steps=[],
+                    out=os.path.join(w.sub("selftest"), "base%d" % attempt))
+        o = classify(ctx["bin"], plan, known)
+        if o["cls"] == "clean":
+            break
+        ctx["cov"].setdefault("selftest_base_trace_rerecorded", []).append("%s %s" % (o["cls"], str(o["detail"])[:120]))
     if o["cls"] != "clean":
-        raise Infra("self-test: the single-client base trace was judged %s %s" % (o["cls"], o["detail"]))
+        raise Infra("self-test: the single-client base trace was judged %s %s (3 recordings)" % (o["cls"], o["detail"]))
     ctx["traces_ok"] += 1
     with open(os.path.join(plan["out"], "trace.ndjson")) as f:
         lines = f.read().splitlines()
